@@ -517,6 +517,13 @@ pub fn space(thorough: bool) -> Vec<Prog> {
             out.push(build(&v, r + 1, format!("g{g}|rot{r}rev")));
         }
     }
+    // counts: n variables in one group / n groups, around the powers of two
+    for n in [15u32, 16, 17, 31, 32, 33, 63, 64, 65, 129] {
+        let order: Vec<(u32, u32)> = (0..n).map(|i| (0, (i * 7) % n)).collect();
+        out.push(build(&order, n as usize, format!("count|one-group|{n}")));
+        let groups: Vec<(u32, u32)> = (0..n).map(|g| (g, g % 2)).collect();
+        out.push(build(&groups, n as usize + 1, format!("count|groups|{n}")));
+    }
     out
 }
 
